@@ -494,7 +494,10 @@ def apply_regime(module, regime, seed):
                 if leaf in NONSINGULAR:
                     p.add_(torch.randn(p.shape, generator=g, dtype=p.dtype) * 0.2)
                 else:
-                    p.copy_((torch.rand(p.shape, generator=g, dtype=p.dtype) * 2 - 1) * float(torch.rand((), generator=g)) * 2)
+                    v = (torch.rand(p.shape, generator=g, dtype=p.dtype) * 2 - 1) * float(torch.rand((), generator=g)) * 2
+                    if leaf == "weight" and p.dim() >= 2:
+                        v = v / math.sqrt(max(1, int(np.prod(p.shape[1:]))))   # network weights: keep conditioner outputs O(1)
+                    p.copy_(v)
             else:
                 raise ValueError(regime)
 
@@ -938,6 +941,19 @@ def transform_case(draw, opts=None):
     if opts.get("fn_box", True) and draw(st.integers(0, 7)) == 0:
         spec, dom = draw(fn_box_spec())
         ctxk = None
+    elif opts.get("multiscale", True) and dom == "R" and shape[0] >= 2 and draw(st.integers(0, 9)) == 0:
+        # multiscale composite over R->R leaves: stage k acts on what is left after k splits along dim 1
+        stages, cur, mparts = draw(st.integers(1, 3)), list(shape), []
+        o = dict(opts)
+        o["exclude"] = list(o.get("exclude", [])) + ["exp", "tanh", "sigmoid", "cauchycdf", "squeeze", "glu", "inv_R", "batchnorm",
+                                                      "c_umnn", "ar_umnn"] + (["c_affine", "c_additive", "c_spline"] if (img and ctxk is not None) else [])
+        for _ in range(stages):
+            if cur[0] < 2:
+                break
+            mparts.append(draw(leaf_spec(cur, "R", ctxk, o)))
+            cur = [cur[0] // 2] + cur[1:]
+        if mparts:
+            spec = {"t": "multiscale", "split_dim": 1, "parts": mparts}
     regime = draw(st.sampled_from(opts.get("regimes", REGIMES_ALL)))
     return {"shape": shape, "dom": dom, "ctx": ctxk, "spec": spec,
             "init": {"regime": regime, "seed": draw(st.integers(0, 10 ** 6)), "reload": draw(st.integers(0, 3)) == 0}}
